@@ -39,6 +39,7 @@ F_EXPL = 'C06-explicit-show-needs-stdout'
 
 HEADER = '''import sys
 K = int(sys.argv[1]); KIND = sys.argv[2]; DECO = sys.argv[3]; OUT = sys.argv[4]
+SHOWAT = int(sys.argv[5]) if len(sys.argv) > 5 else 0     # explicit mode: an intermediate profile.show() at that statement
 LEAVE = """
 if OUT == 'none':
     sys.stdout = None
@@ -62,6 +63,7 @@ _n = 0
 def tick(v=0):
     global _n
     _n += 1
+    if _n == SHOWAT and DECO == 'explicit': deco.show()
     if _n == K:
         exec(LEAVE, globals())
         if KIND == 'exit':
@@ -170,7 +172,7 @@ def conv(events):
 ENDED = {'none': 'return', 'exit': 'exit:3', 'kbd': 'kbd', 'exc': 'exc:ValueError'}
 
 
-def mode_cmd(mode, prog, k, kind, out='ok'):
+def mode_cmd(mode, prog, k, kind, out='ok', showat=0):
     f, mod = prog['file'], prog['file'][:-3]
     tail = [str(k), kind]
     kp = [core.PY, '-m', 'kernprof']
@@ -187,7 +189,7 @@ def mode_cmd(mode, prog, k, kind, out='ok'):
     if mode == 'pm':
         return kp + ['-m', mod] + tail + ['nodeco', out], mod + '.prof', {}
     if mode == 'explicit':
-        return [core.PY, f] + tail + ['explicit', out], 'profile_output.lprof', {'LINE_PROFILE': '1'}
+        return [core.PY, f] + tail + ['explicit', out, str(showat)], 'profile_output.lprof', {'LINE_PROFILE': '1'}
     raise ValueError(mode)
 
 
@@ -197,7 +199,7 @@ def run_case(impl, base, idx, c, progs):
     os.makedirs(d)
     with open(os.path.join(d, prog['file']), 'w') as fh:
         fh.write(prog['text'])
-    cmd, outfile, extra = mode_cmd(c['mode'], prog, c['k'], c['kind'], c.get('out', 'ok'))
+    cmd, outfile, extra = mode_cmd(c['mode'], prog, c['k'], c['kind'], c.get('out', 'ok'), c.get('showat', 0))
     env = core.impl_env(impl, **extra)
     r = sub(cmd, d, env)
     ref = None
@@ -252,13 +254,15 @@ def analyse(res_case, loaded, prog, ex, ended):
     out = c.get('out', 'ok')
     visible = out in ('ok', 'errnone')        # can kernprof's closing lines be seen on the captured stdout?
     dumps = sum(1 for l in wrote if l == want_line) if visible else int(loaded['exists'])
+    if c.get('showat'):
+        dumps -= 1          # the program's own intermediate show(); what is left is the exit hook's
     if visible and dumps != 1:
         fails.append('expected exactly one %r line, stdout has %r' % (want_line, wrote))
     if not loaded['exists']:
         fid = None
         if (mode == 'explicit' and out in ('none', 'closed', 'unwritable')
                 and not any(x.startswith('profile_output') for x in res_case['listing'])
-                and (out != 'ok') and ('show' in r['err'] or out == 'closed' or r['err'] == '')):
+                and 'show_text' in r['err'] and 'GlobalProfiler.show' in r['err']):
             fid = F_EXPL
         fails.append(('the statistics file %s was not written (directory: %r)' % (res_case['outname'], res_case['listing']), fid))
     elif not loaded['ok']:
@@ -365,6 +369,10 @@ def make_cases(rnd, tier, progs):
                 cases.append(dict(p=pi, k=0, kind='none', mode=mode))
                 for kind in KINDS[1:]:
                     cases.append(dict(p=pi, k=rnd.choice(ks), kind=kind, mode=mode))
+        # explicit mode with an intermediate profile.show() requested by the program itself
+        for kind in KINDS:
+            k = 0 if kind == 'none' else rnd.choice([x for x in ks if x >= 4])
+            cases.append(dict(p=pi, k=k, kind=kind, mode='explicit', showat=max(1, (k or prog['N']) // 2)))
         # the program ends with its standard streams closed / replaced
         for mode in MODES:
             for out in OUTS[1:]:
@@ -567,7 +575,7 @@ def replay(path):
         o = oracle(base, prog, 0, 'none')
         prog['full'] = conv(o['events'])
         prog['N'] = sum(1 for e in prog['full'] if e == ('c', TICK))
-        case = dict(p=0, k=c['k'], kind=c['kind'], mode=c['mode'], out=c.get('out', 'ok'))
+        case = dict(p=0, k=c['k'], kind=c['kind'], mode=c['mode'], out=c.get('out', 'ok'), showat=c.get('showat', 0))
         rs, loaded, orc = evaluate(impl, base, [case], [prog], 'replay')
         fails, obs = analyse(rs[0], loaded[0], prog, orc[(0, c['k'], c['kind'], case['out'])], None)
         fails = [dict(why=f[0], finding=f[1]) for f in fails]
